@@ -150,7 +150,7 @@ func checkC16(r *Run) {
 		if err != nil {
 			failTool("fox.New: %v", err)
 		}
-		routes := []string{"/s/{x}/{y}", "/f/*{w}/end", "h.example/s/{x}", "/plain/route", "/wide/", "/tail/{x}/"}
+		routes := []string{"/s/{x}/{y}", "/f/*{w}/end", "h.example/s/{x}", "/plain/route", "/wide/", "/tail/{x}/", "/f2/*{w}/rev/{id}/", "{n}.0.0.7/ip/{x}"}
 		first := "abcdefghijklmnopqrstuvwxyz0123456789"
 		for i := 0; i < len(first); i++ {
 			routes = append(routes, fmt.Sprintf("%ctenant.example/t/{id}", first[i]), fmt.Sprintf("/wide/%c", first[i]), fmt.Sprintf("/wide%c", first[i]))
@@ -164,6 +164,7 @@ func checkC16(r *Run) {
 		for _, ex := range []extra{
 			{"", "/s/a%2Fb/1"}, {"", "/s/x%20y/%C3%A9"}, {"", "/f/x%20y/z%2Fz/end"}, {"h.example", "/s/a%2Fb"}, {"", "/s/plain/1"},
 			{"unknown.example", "/plain/route"}, {"", "/plain/route"}, {"qtenant.example", "/t/7"}, {"9tenant.example", "/t/7"}, {"zz.example", "/s/a/b"},
+			{"", "/f2/a/b/rev/7"}, {"", "/f2/a/rev/7/"}, {"10.0.0.7", "/plain/route"}, {"web-0.cluster9", "/s/a/b"}, {"10.0.0.7", "/ip/1"}, {"[::1]", "/plain/route"},
 			{"", "/wide"}, {"", "/wide/"}, {"", "/wide/q"}, {"", "/wideq"}, {"", "/tail/x"}, {"unknown.example", "/tail/x"},
 		} {
 			u, err := url.ParseRequestURI(ex.target)
